@@ -111,3 +111,44 @@ theorem mergeField_translated (kind : Kind) (src dst : Option Val)
       | r v => simp [Kind.fits] at hs
 
 end Mockery.Config
+
+namespace Mockery.Config
+open Mockery.Generated
+
+/-! ### `InterfaceConfig.Initialize`: the `configs` entries -/
+
+/-- what a declared effect of one loop iteration does to the entry (`none`: a YAML null entry, a nil pointer) -/
+def applyEntryEffect (ft : FieldTable) (cfg : Cfg) (e : Option Cfg) : String → Option Cfg
+  | "entry := {}" => some []
+  | "store entry" => e
+  | "merge config into entry" => match e with
+    | some c => some (mergeConfigs ft cfg c)
+    | none => none
+  | _ => e
+
+def runEntryEffects (ft : FieldTable) (cfg : Cfg) (e : Option Cfg) (effs : List String) : Option Cfg :=
+  effs.foldl (applyEntryEffect ft cfg) e
+
+/-- the `configs` list after `InterfaceConfig.Initialize`, read off the translated function and the translated
+loop body -/
+def configsByTranslation (ft : FieldTable) (cfg : Cfg) (entries : List Cfg) : List Cfg :=
+  match Merge.interfaceInitializeEffects entries.length with
+  | ["configs := [config]"] => [cfg]
+  | _ => entries.filterMap (fun e => runEntryEffects ft cfg (some e) (Merge.interfaceInitializeEntryEffects false))
+
+theorem initIface_configs_translated (ft : FieldTable) (pkgCfg : Cfg) (ic : IfaceCfg) :
+    (initIface ft pkgCfg (some ic)).configs =
+      configsByTranslation ft (mergeConfigs ft pkgCfg (ic.config.getD [])) ic.configs := by
+  unfold initIface configsByTranslation Merge.interfaceInitializeEffects
+  cases h : ic.configs with
+  | nil => simp [h]
+  | cons e es =>
+    simp [h, Merge.interfaceInitializeEntryEffects, runEntryEffects, applyEntryEffect]
+
+/-- a null entry (`-`) is initialised to the empty config before the merge: it behaves like an entry that sets nothing -/
+theorem null_entry_is_empty_entry (ft : FieldTable) (cfg : Cfg) :
+    runEntryEffects ft cfg none (Merge.interfaceInitializeEntryEffects true) =
+      runEntryEffects ft cfg (some []) (Merge.interfaceInitializeEntryEffects false) := by
+  simp [Merge.interfaceInitializeEntryEffects, runEntryEffects, applyEntryEffect]
+
+end Mockery.Config
